@@ -4,6 +4,7 @@
 mod common;
 mod rng;
 mod c11;
+mod c13;
 
 use std::io::{BufWriter, Write};
 
@@ -23,6 +24,7 @@ fn main() {
             let seed: u64 = args.get(4).and_then(|s| s.parse().ok()).unwrap_or(1);
             match prop {
                 "C11" => c11::gen(tier, seed, &mut out),
+                "C13" => c13::gen(tier, seed, &mut out),
                 _ => {
                     eprintln!("unknown property {}", prop);
                     std::process::exit(2);
@@ -57,6 +59,7 @@ fn replay_one(toks: &[&str]) -> String {
             let cs: Vec<String> = toks[2][1..].split(',').map(|s| s.to_string()).collect();
             c11::observe(fmt, &cs)
         }
+        "C13" => c13::replay(&toks[1..]),
         other => format!("unknown-model {}", other),
     }
 }
